@@ -224,18 +224,41 @@ inline Result exec_c03(const Plan& plan)
             return res;
         }
     }
-    // 3. cursor traversal (all plain): every value/position against the model
+    // 3. cursor traversals: all plain, and through every wrapper kind (legal scripts from the cursor
+    //    model): every position and value against the wire image
+    sim::Rng wr(fs.tree_seed ^ 0xC03);
+    for(int variant = 0; variant < 7 && !res.violation; variant++)
     {
+        std::vector<Decision> raw;
+        if(variant > 0)
+            for(int i = 0; i < 400; i++)
+            {
+                Decision d;
+                switch(variant)
+                {
+                case 1: d.wrapper = W_INIT; break;
+                case 2: d.wrapper = i % 2 ? W_PLAIN : W_DONT_MOVE; break;
+                case 3: d.wrapper = i % 2 ? W_INIT : W_INIT_DONT_MOVE; break;
+                case 4: d.wrapper = W_SKIP; break;
+                case 5: d.wrapper = i % 3 == 2 ? W_SKIP : W_DONT_MOVE; break;
+                default: d.wrapper = (int)wr.below(5); d.split = (int)wr.below(4) - 1; break;
+                }
+                raw.push_back(d);
+            }
+        CursorModel cm{sh, f, raw, false};
+        cm.run();
         Req q;
         q.target = T_MESSAGE;
-        q.sub = M_SIZE_BYTES_CURSOR;
-        if(!c.ra(q, rs, "cursor traversal")) return res;
-        std::vector<Decision> none;
-        CursorModel cm{sh, f, none, false};
-        cm.run();
+        q.sub = M_CURSOR_WALK;
+        q.script = &cm.script;
+        q.arg = cm.complete ? 0 : 2;
+        static const char* vn[] = {"plain", "init", "dont_move+plain", "init_dont_move+init", "skip", "dont_move,dont_move,skip", "seeded mix"};
+        const std::string vname = std::string("cursor traversal (") + vn[variant] + ")";
+        if(!c.ra(q, rs, vname)) return res;
+        sim::stats().count("c03.cursor_walks");
         if(rs.csteps.size() != cm.steps.size())
         {
-            c.fail("cursor-steps", "cursor traversal made " + std::to_string(rs.csteps.size()) + " calls, model " + std::to_string(cm.steps.size()));
+            c.fail("cursor-steps", vname + " made " + std::to_string(rs.csteps.size()) + " calls, model " + std::to_string(cm.steps.size()));
             return res;
         }
         for(std::size_t i = 0; i < cm.steps.size(); i++)
@@ -244,35 +267,49 @@ inline Result exec_c03(const Plan& plan)
             const CursorStep& g = rs.csteps[i];
             if(g.cursor_off != e.cursor_after)
             {
-                c.fail("cursor-position", "cursor traversal step " + std::to_string(i + 1) + " left the cursor at " + std::to_string(g.cursor_off) + ", the wire image requires " + std::to_string(e.cursor_after));
+                c.fail("cursor-position", vname + " step " + std::to_string(i + 1) + " left the cursor at " + std::to_string(g.cursor_off) + ", the wire image requires " + std::to_string(e.cursor_after));
                 return res;
             }
+            if(!e.compare_value) continue;
+            const LevelShape& lv = sh.levels[(std::size_t)e.level];
             if(e.mkind == T_FIELD)
             {
-                const LevelShape& lv = sh.levels[(std::size_t)e.level];
                 const MemberShape& m = lv.fields[(std::size_t)e.member];
                 const u64 abs = (e.path.empty() ? sh.msg_header.size : e.inst_start) + m.offset;
                 if(m.kind == K_SCALAR || m.kind == K_ENUM || m.kind == K_SET)
                 {
                     if(!g.has_bits || g.bits != rd(&f.bytes[abs], (int)m.size, sh.big))
                     {
-                        c.fail("cursor-value", std::string(lv.name) + "." + m.name + " through the cursor = " + std::to_string(g.bits) + ", wire image holds " + std::to_string(rd(&f.bytes[abs], (int)m.size, sh.big)));
+                        c.fail("cursor-value", std::string(lv.name) + "." + m.name + " through " + vname + " = " + std::to_string(g.bits) + ", wire image holds " + std::to_string(rd(&f.bytes[abs], (int)m.size, sh.big)));
                         return res;
                     }
                 }
                 else if(!g.has_addr || g.addr_off != (long long)abs)
                 {
-                    c.fail("cursor-value", std::string(lv.name) + "." + m.name + " through the cursor is a view at " + std::to_string(g.addr_off) + ", wire position " + std::to_string(abs));
+                    c.fail("cursor-value", std::string(lv.name) + "." + m.name + " through " + vname + " is a view at " + std::to_string(g.addr_off) + ", wire position " + std::to_string(abs));
+                    return res;
+                }
+            }
+            else if(e.mkind == T_GROUP || e.mkind == T_DATA)
+            {
+                // the view handed out must sit where the wire image puts the member: walk the model tree
+                const Node* node = &f.root;
+                for(auto& st : e.path) node = &node->groups[(std::size_t)st.group].entries[(std::size_t)st.entry];
+                const long long want = e.mkind == T_GROUP ? (long long)node->groups[(std::size_t)e.member].start : (long long)node->data_start[(std::size_t)e.member];
+                if(!g.has_addr || g.addr_off != want)
+                {
+                    c.fail("cursor-value", std::string(lv.name) + "." + (e.mkind == T_GROUP ? lv.groups[(std::size_t)e.member].name : lv.data[(std::size_t)e.member].name) + " through " + vname + " is a view at " + std::to_string(g.addr_off) + ", the wire image puts it at " + std::to_string(want));
                     return res;
                 }
             }
         }
-        if(rs.cursor_off != (long long)N || rs.size != N)
+        if(cm.complete && (rs.cursor_off != (long long)N || rs.size != N))
         {
-            c.fail("cursor-end", "after the cursor traversal: cursor " + std::to_string(rs.cursor_off) + ", size_bytes(m,c) " + std::to_string(rs.size) + ", wire size " + std::to_string(N));
+            c.fail("cursor-end", "after " + vname + ": cursor " + std::to_string(rs.cursor_off) + ", size_bytes(m,c) " + std::to_string(rs.size) + ", wire size " + std::to_string(N));
             return res;
         }
     }
+    if(res.violation) return res;
     // 4. visiting: structure against the model, values against the wire image
     {
         Req q;
